@@ -29,7 +29,7 @@ def gen_rows(rng, n, cfg):
     rows = []
     ids = list(range(1, n + 1))
     rng.shuffle(ids)
-    offs = rng.pick([0, 0, 100])
+    offs = rng.pick([0, 0, 100, 250000, 16777216])   # also identifiers where neighbours differ only in the 6th-8th digit
     for i in range(n):
         r = [0.0] * 20
         r[IDX["score"]] = rng.pick([round(rng.random(), 3), float(rng.randrange(0, 4)) / 4.0])
@@ -122,6 +122,14 @@ class C08(Property):
         op = rng.weighted([("subset", 4), ("remove", 3), ("split", 3), ("intersection", 3), ("dropdup", 3), ("merge_renumber", 3),
                            ("merge_dropdup", 2), ("renumber_particles", 2), ("renumber_objects", 3), ("save", 2), ("load", 2)])
         feat = rng.pick(FEATURES)
+        if op in ("subset", "remove") and hs[h]["rows"] and rng.chance(0.3):
+            # select / remove by the particle identifier itself (values taken from the list, plus one absent value)
+            ids = [r[IDX["subtomo_id"]] for r in hs[h]["rows"]]
+            vals = [rng.pick(ids) for _ in range(rng.randrange(1, 4))] + ([max(ids) + 1.0] if rng.chance(0.3) else [])
+            if op == "subset":
+                return {"op": op, "sess": sess, "h": h, "new": self.new_handle(world), "feature": "subtomo_id",
+                        "values": vals if rng.chance(0.7) else vals[0], "reset_index": rng.chance(0.6)}
+            return {"op": op, "sess": sess, "h": h, "feature": "subtomo_id", "values": vals if rng.chance(0.6) else vals[0]}
         if op == "subset":
             vals = [float(rng.randrange(1, 5)) for _ in range(rng.randrange(1, 4))]
             return {"op": op, "sess": sess, "h": h, "new": self.new_handle(world), "feature": feat,
